@@ -34,7 +34,7 @@ def spec_modules():
 
 
 def _verify_one(job):
-    qual, src, timeout_ms, findings = job
+    qual, src, timeout_ms, findings, case = job
     from pyvc.contracts import REGISTRY
     from pyvc.source import Repo, SourceError
     from pyvc.verify import FunctionVerifier
@@ -51,7 +51,10 @@ def _verify_one(job):
         fv = FunctionVerifier(repo, c, REGISTRY, timeout_ms=timeout_ms, spec_modules=spec_modules(),
                               findings=findings,
                               setup=setup)
-        res = fv.run()
+        if case == "count":
+            out["cases"] = fv.count_cases()
+            return out
+        res = fv.run(only_case=case)
         out["results"] = [r.to_json() for r in res]
         info = dict(fv.info)
         info["assumptions"] = sorted(info.get("assumptions", []))
@@ -146,13 +149,32 @@ def main(argv=None):
     if not quals:
         print(f"CHECKER-ERROR: no contracts registered for {prop}")
         return 3
-    timeout_ms = 10000 if a.tier == "quick" else 60000
-    jobs = [(q, a.src, timeout_ms, all_findings) for q in quals]
-    if a.jobs > 1 and len(jobs) > 1:
-        with mp.get_context("fork").Pool(min(a.jobs, len(jobs))) as pool:
-            outs = pool.map(_verify_one, jobs, chunksize=1)
-    else:
-        outs = [_verify_one(j) for j in jobs]
+    timeout_ms = 30000 if a.tier == "quick" else 120000
+    with mp.get_context("fork").Pool(a.jobs) as pool:
+        counts = pool.map(_verify_one, [(q, a.src, timeout_ms, all_findings, "count") for q in quals], chunksize=1)
+        jobs = []
+        pre_errors = []
+        for q, cnt in zip(quals, counts):
+            if cnt.get("error"):
+                pre_errors.append(cnt)
+                continue
+            n = cnt.get("cases", 1)
+            jobs.extend((q, a.src, timeout_ms, all_findings, (k if n > 1 else None)) for k in range(n))
+        parts = pool.map(_verify_one, jobs, chunksize=1)
+    merged = {}
+    for o in pre_errors + parts:
+        m = merged.setdefault(o["qual"], {"qual": o["qual"], "results": [], "error": None, "info": {}, "wall_s": 0})
+        m["results"].extend(o.get("results", []))
+        m["error"] = m["error"] or o.get("error")
+        m["wall_s"] = round(m["wall_s"] + o.get("wall_s", 0), 3)
+        for k, v in o.get("info", {}).items():
+            if k in ("paths", "solver_calls", "input_cases") and isinstance(v, int) and k in m["info"] and k != "input_cases":
+                m["info"][k] += v
+            elif k == "assumptions":
+                m["info"][k] = sorted(set(m["info"].get(k, [])) | set(v))
+            else:
+                m["info"].setdefault(k, v)
+    outs = list(merged.values())
 
     errors, undecided, violations, known_seen = [], [], [], []
     n_obl = n_dis = 0
@@ -269,7 +291,11 @@ def main(argv=None):
         print("CHECKER-ERROR:", e)
     for u in undecided:
         print("UNDECIDED:", u)
+    seen_v = set()
     for name, rpath, suffix in violations:
+        if name in seen_v:
+            continue
+        seen_v.add(name)
         print(f"  failed obligation: {name}")
         print(f"VIOLATION property={prop} replay={rpath}{suffix}")
     print(f"{prop}: obligations={n_obl} discharged={n_dis} violations={len(violations)} undecided={len(undecided)} "
